@@ -27,6 +27,8 @@ type rmScript struct {
 	Err      string `json:"err"`
 	Hold     bool   `json:"hold"`  // block until rm_release names this branch
 	Panic    bool   `json:"panic"` // the manager panics
+	// Then is the outcome of the following call for the same branch (a retry by the coordinator), and so on
+	Then *rmScript `json:"then,omitempty"`
 }
 
 type rmCall struct {
@@ -59,6 +61,14 @@ func (s *scriptedRM) phase2(kind string, r rm.BranchResource) (branch.BranchStat
 	s.mu.Unlock()
 	if rel != nil {
 		<-rel
+	}
+	if sc != nil && sc.Then != nil {
+		// the next call for this branch follows the next script entry
+		s.mu.Lock()
+		nx := *sc.Then
+		nx.BranchID = sc.BranchID
+		s.script[r.BranchId] = &nx
+		s.mu.Unlock()
 	}
 	c := rmCall{Kind: kind, Xid: r.Xid, BranchID: r.BranchId, ResourceID: r.ResourceId, AppData: string(r.ApplicationData), BranchType: int(r.BranchType)}
 	var st branch.BranchStatus
